@@ -184,7 +184,7 @@ func runC12(r *mc.Run) {
 
 type c12op struct {
 	name string
-	kind int // 0 verify, 1 set Now nil, 2 set Now explicit, 3 advance clock
+	kind int // 0 verify (lvl 3 = revocation without collateral), 1 Now=nil, 2 Now=explicit(T0+q days), 3 advance clock, 4-6 TrustedRoots, 7/8 collateral service environment
 	q    int
 	lvl  int
 }
@@ -224,23 +224,51 @@ func c12Histories(r *mc.Run) {
 		q    *pb.QuoteV4
 	}{{"A", qa}, {"A'", qb}, {"foreign", qf}, {"empty-message", &pb.QuoteV4{}}}
 	var ops []c12op
+	lvlNames := []string{"L0", "L1", "L2", "revocation-without-collateral"}
 	for qi := range quotes {
-		for l := 0; l < 3; l++ {
-			ops = append(ops, c12op{fmt.Sprintf("verify(%s,%s)", quotes[qi].name, lvlName[l]), 0, qi, l})
+		for l := 0; l < 4; l++ {
+			if l == 3 && qi != 0 && !r.Thorough() {
+				continue
+			}
+			ops = append(ops, c12op{fmt.Sprintf("verify(%s,%s)", quotes[qi].name, lvlNames[l]), 0, qi, l})
 		}
 	}
 	ops = append(ops, c12op{"Now=nil", 1, 0, 0}, c12op{"Now=explicit(T0)", 2, 0, 0}, c12op{"clock+25d", 3, 0, 0},
-		c12op{"TrustedRoots={look-alike}", 4, 0, 0}, c12op{"TrustedRoots={T}", 5, 0, 0})
+		c12op{"TrustedRoots={look-alike}", 4, 0, 0}, c12op{"TrustedRoots={T}", 5, 0, 0}, c12op{"TrustedRoots=nil", 6, 0, 0},
+		c12op{"Now=explicit(T0+70d)", 2, 70, 0}, c12op{"env:pck-crl-lists-A's-leaf", 7, 1, 0}, c12op{"env:crls-clean", 7, 0, 0})
+	if r.Thorough() {
+		ops = append(ops, c12op{"Now=explicit(T0+22d)", 2, 22, 0}, c12op{"env:A's-tcb-level-Revoked", 8, 1, 0}, c12op{"env:A's-tcb-level-UpToDate", 8, 0, 0})
+	}
+	// environments: what the collateral service answers
+	wrev := *wa
+	wrev.PckCrl = world.MakeCRL(world.CRLSpec{Issuer: T.Inter, Signer: T.InterKey, Revoked: []*big.Int{wa.PKI.Leaf.SerialNumber}})
+	wrev.BuildGetter()
+	wtcb := *wa
+	wtcb.TcbInfo.TcbLevels = append([]world.Level(nil), wa.TcbInfo.TcbLevels...)
+	wtcb.TcbInfo.TcbLevels[0].TcbStatus = "Revoked"
+	wtcb.PckCrl, wtcb.RootCrl = wa.PckCrl, wa.RootCrl
+	wtcb.Finish()
+	envGetter := func(crlRevoked, tcbRevoked int) *world.Getter {
+		g := getter.Clone()
+		if crlRevoked == 1 {
+			g.Responses[world.URLPckCrl("platform")] = wrev.Getter.Responses[world.URLPckCrl("platform")]
+		}
+		if tcbRevoked == 1 {
+			u := world.URLTcbInfo(hexs(wa.Plat.FMSPC))
+			g.Responses[u] = wtcb.Getter.Responses[u]
+		}
+		return g
+	}
 	roots := wa.Roots
 	foreignRoots := world.Pool(world.CachedPKI("F").Root)
 	depth := 3
 	if r.Thorough() {
 		depth = 4
 	}
-	fresh := func(gc, cr bool, nowNil bool) *verify.Options {
-		o := &verify.Options{GetCollateral: gc, CheckRevocations: cr, Getter: getter.Clone(), TrustedRoots: roots}
+	fresh := func(lvl int, nowNil bool, at time.Time, g *world.Getter) *verify.Options {
+		o := &verify.Options{GetCollateral: lvl == 1 || lvl == 2, CheckRevocations: lvl >= 2, Getter: g.Clone(), TrustedRoots: roots}
 		if !nowNil {
-			ts := world.TimeSetAt(world.T0)
+			ts := world.TimeSetAt(at)
 			o.Now = &ts
 		}
 		return o
@@ -251,9 +279,12 @@ func c12Histories(r *mc.Run) {
 		initName := map[bool]string{false: "Now=explicit", true: "Now=nil"}[initNil]
 		r.BFS("shared-options-histories/init:"+initName, depth, len(ops), func(hist []int) (string, bool) {
 			vsched.Reset()
-			shared := fresh(false, false, initNil)
+			shared := fresh(0, initNil, world.T0, getter)
 			nowNil := initNil
+			nowAt := world.T0
 			curRoots := roots
+			envCrl, envTcb, rootsID := 0, 0, 5
+			curGetter := getter
 			for step, oi := range hist {
 				op := ops[oi]
 				last := step == len(hist)-1
@@ -262,20 +293,33 @@ func c12Histories(r *mc.Run) {
 					shared.Now = nil
 					nowNil = true
 				case 2:
-					ts := world.TimeSetAt(world.T0)
+					nowAt = world.T0.AddDate(0, 0, op.q)
+					ts := world.TimeSetAt(nowAt)
 					shared.Now = &ts
 					nowNil = false
 				case 3:
 					vsched.Advance(25 * 24 * time.Hour)
 				case 4:
+					rootsID = 4
 					curRoots = foreignRoots
 					shared.TrustedRoots = curRoots
 				case 5:
+					rootsID = 5
 					curRoots = roots
 					shared.TrustedRoots = curRoots
+				case 6:
+					rootsID = 6
+					curRoots = nil
+					shared.TrustedRoots = nil
+				case 7:
+					envCrl = op.q
+					curGetter = envGetter(envCrl, envTcb)
+				case 8:
+					envTcb = op.q
+					curGetter = envGetter(envCrl, envTcb)
 				case 0:
-					shared.GetCollateral, shared.CheckRevocations = op.lvl >= 1, op.lvl >= 2
-					shared.Getter = getter.Clone()
+					shared.GetCollateral, shared.CheckRevocations = op.lvl == 1 || op.lvl == 2, op.lvl >= 2
+					shared.Getter = curGetter.Clone()
 					q := quotes[op.q].q
 					err := world.SafeVerify(q, shared)
 					if !last {
@@ -285,23 +329,26 @@ func c12Histories(r *mc.Run) {
 					if !r.Want(id) {
 						continue
 					}
-					fo0 := fresh(op.lvl >= 1, op.lvl >= 2, nowNil)
+					fo0 := fresh(op.lvl, nowNil, nowAt, curGetter)
 					fo0.TrustedRoots = curRoots
 					ferr := world.SafeVerify(q, fo0)
 					out := verdict(err)
 					if world.IsPanic(err) {
 						r.Violate("history:panic:"+crashSite(err), id, "verification through a re-used options value crashes: "+errStr(err), map[string]any{"history": c12HistNames(ops, hist)})
+					} else if op.lvl == 3 && err == nil {
+						r.Violate("history:revocation-without-collateral-accepted", id, "through a re-used options value CheckRevocations without GetCollateral is accepted", map[string]any{"history": c12HistNames(ops, hist)})
+						out += "!accept"
 					} else if (err == nil) != (ferr == nil) {
 						r.Violate(fmt.Sprintf("history:verdict-depends-on-earlier-calls:now-nil=%v", nowNil), id,
 							fmt.Sprintf("re-used options give %q, a fresh options value at the same time gives %q", errStr(err), errStr(ferr)), map[string]any{"history": c12HistNames(ops, hist), "virtual_time": vsched.Elapsed().String()})
 						out += "!=fresh:" + verdict(ferr)
 					}
 					// the reporting API must talk about the quote just verified
-					if err == nil && op.lvl >= 1 {
+					if err == nil && (op.lvl == 1 || op.lvl == 2) {
 						var tl, fl any
 						var e1, e2 error
 						func() { defer world.Recover(&e1); tl, _, e1 = verify.SupportedTcbLevelsFromCollateral(q, shared) }()
-						fo := fresh(op.lvl >= 1, op.lvl >= 2, nowNil)
+						fo := fresh(op.lvl, nowNil, nowAt, curGetter)
 						fo.TrustedRoots = curRoots
 						world.SafeVerify(q, fo)
 						func() { defer world.Recover(&e2); fl, _, e2 = verify.SupportedTcbLevelsFromCollateral(q, fo) }()
@@ -316,7 +363,7 @@ func c12Histories(r *mc.Run) {
 					r.Eval("hist/init:"+initName+"/"+c12HistName(ops, hist), true, "env-op")
 				}
 			}
-			return c12StateKey(shared) + "|t=" + vsched.Elapsed().String(), true
+			return fmt.Sprintf("%s|t=%s|env=%d,%d|roots=%d", c12StateKey(shared), vsched.Elapsed(), envCrl, envTcb, rootsID), true
 		})
 	}
 	_ = ref.MustAccept
